@@ -68,6 +68,24 @@ pub fn run(ctx: &mut Ctx) {
         // altered A: the server must refuse the honest M1
         let bit = rng.below(256) as usize;
         emit_server(ctx, "server: A with one bit changed", &u, l.v, l.salt, b, arr32(&flip(&l.a_pub, bit)), &[l.m1], chal);
+        // non-canonical encodings: A + N and B + N are different 32-byte keys that are congruent to the
+        // honest ones; the proofs bind the exchanged BYTES, so the honest M1 must be refused with A + N
+        let nz = bi(&NLE);
+        let a_plus = bi(&l.a_pub) + &nz;
+        if a_plus < (num_bigint::BigInt::from(1) << 256) {
+            let ap = le32b(&a_plus);
+            let out = emit_server(ctx, "server: A + N (non-canonical) with the honest M1", &u, l.v, l.salt, b, ap, &[l.m1, rng.arr()], chal);
+            if out.len() == 3 && out[2][0] == 0 { ctx.fail("rejection", format!("{{\"what\":\"server accepted the honest proof together with the altered public key A + N\",\"user\":{},\"password\":{},\"tape\":\"{}\",\"A_plus_N\":\"{}\"}}", jstr(&u), jstr(&p), hex(&tape), hex(&ap))); }
+        }
+        let b_plus = bi(&l.b_pub) + &nz;
+        if b_plus < (num_bigint::BigInt::from(1) << 256) {
+            let bp = le32b(&b_plus);
+            if let Some(out) = emit_client(ctx, "client: B + N (non-canonical)", &u, &p, bp, l.salt, a, &[l.m2]) {
+                if out.len() > 2 && out[2] == l.m1.to_vec() { ctx.fail("rejection", format!("{{\"what\":\"client proof does not depend on the exchanged bytes of B (B + N gives the same M1)\",\"user\":{},\"password\":{},\"tape\":\"{}\"}}", jstr(&u), jstr(&p), hex(&tape))); }
+            }
+        }
+        let big_a: [u8; 32] = { let mut x: [u8; 32] = rng.arr(); x[31] |= 0xC0; x };   // certainly >= N
+        emit_server(ctx, "server: random A >= N", &u, l.v, l.salt, b, big_a, &[rng.arr()], chal);
         // altered salt / B / credentials on the client: its proof must be refused by the server
         let variants: Vec<(&str, String, String, [u8; 32], [u8; 32])> = vec![
             ("salt bit changed", u.clone(), p.clone(), l.b_pub, arr32(&flip(&l.salt, rng.below(256) as usize))),
@@ -117,6 +135,13 @@ pub fn run(ctx: &mut Ctx) {
                     if out[4][0] != 0 { fails.push(det("client refused the honest M2".into())); }
                     for j in 0..160 { if out[4][j + 1] != 1 { fails.push(det(format!("client accepted M2 with bit {} flipped", j))); } }
                 } else { fails.push(det("client panicked".into())); }
+            }
+            // non-canonical A + N with the honest proof must be refused
+            let a_plus = bi(&l.a_pub) + bi(&NLE);
+            if a_plus < (num_bigint::BigInt::from(1) << 256) {
+                runs += 1;
+                let out = server_api(&u, l.v, l.salt, b, le32b(&a_plus), &[l.m1], chal);
+                if out.len() == 3 && out[2][0] == 0 { fails.push(det("server accepted the honest M1 together with the altered public key A + N".into())); }
             }
             // altered A / salt / B / credentials: the resulting proof must be refused
             for _ in 0..6 {
